@@ -31,6 +31,13 @@ int64_t vclock_real_ns()
 	return static_cast<int64_t>(ts.tv_sec) * 1000000000LL + ts.tv_nsec;
 }
 
+int64_t vclock_real_wall_ns()
+{
+	struct timespec ts;
+	syscall(SYS_clock_gettime, CLOCK_REALTIME, &ts);
+	return static_cast<int64_t>(ts.tv_sec) * 1000000000LL + ts.tv_nsec;
+}
+
 int clock_gettime(clockid_t, struct timespec *ts) noexcept
 {
 	const int64_t v(vclock_get());
